@@ -1,3 +1,4 @@
+-- FAMILY: C42
 import Driver.Util
 import IQE.Engine.CpuList
 open Lean IQE.Engine
